@@ -163,7 +163,12 @@ def _replay_s2(m):
     farms = []
     for k in (1, 2):
         kind = S2_KINDS[ch['k%d' % k]]
-        start, end = (1, 3) if kind == 'expired' else ((ep - 3, ep) if kind == 'ended' else (ep - 1, ep + 5))
+        if kind == 'expired':
+            start, end = m['f%d_end' % k] - 2, m['f%d_end' % k]
+        elif kind == 'ended':
+            start, end = m['f%d_end' % k] - 3, m['f%d_end' % k]
+        else:
+            start, end = ep - 1, ep + 5
         farms.append(('m-old%d' % k, 'owner%d' % k, LP1, 'uusd', m['f%d_funded' % k], m['f%d_claimed' % k], 1, start, end))
     return {'now_s': m['now_s'], 'farms': farms, 'counters': {'farm': 3},
             'mints': [('farm_manager', [('uusd', m['fm_usd'])]), ('creator', [('uusd', m['reward']), ('uom', 1000)])],
@@ -196,15 +201,19 @@ def _existing_farm(I, ep, now, k, owner, kind):
     funded = I.sym('f%d_funded' % k, lo=1, hi=U128)
     claimed = I.sym('f%d_claimed' % k, hi=U128)
     I.assume(claimed <= funded)
+    EXP = 2629746          # farm_expiration_time of the world (the minimum the contract accepts: one month)
     if kind == 'expired':
-        # ended long ago: end epoch + expiration time passed (time consistent with the epoch, C18)
-        I.assume(ep >= 60)
-        start, end = 1, 3
+        # ended, and the expiration time after the start of the epoch FOLLOWING its end epoch has passed (any such end epoch, boundary included)
+        end = I.sym('f%d_end' % k, lo=3, hi=10 ** 9)
+        I.assume(smt.And(end <= ep, (end + 1) * DAY + EXP < now))
+        start = simp(end - 2)
     elif kind == 'ended':
-        # past its end epoch but still inside the expiration window, budget left: NOT expired -- kept, not refunded, counts against the limit
+        # past its end epoch but still inside the expiration window (any such end epoch, up to the last second of the window), budget left:
+        # NOT expired -- kept, not refunded, counts against the limit
         I.assume(claimed < funded)
-        I.assume(ep >= 4)
-        start, end = simp(ep - 3), ep
+        end = I.sym('f%d_end' % k, lo=4, hi=10 ** 9)
+        I.assume(smt.And(end <= ep, (end + 1) * DAY + EXP >= now))
+        start = simp(end - 3)
     else:
         I.assume(claimed < funded)
         start, end = simp(ep - 1) if kind == 'active' else simp(ep + 1), simp(ep + 5)
